@@ -1178,6 +1178,31 @@ func Cluster(eco string, r *rand.Rand) []string {
 			}
 		}
 	}
+	// separator-variant family: for a few members, every separator of the tail replaced by each of the others
+	// (alpha.beta / alpha-beta / alpha_beta), and each variant continued by a numeric identifier: orders that treat two
+	// separators alike in one code path and differently in another are inconsistent exactly between these
+	if chance(r, 1, 5) {
+		n0 := len(out)
+		for k := 0; k < 4 && n0 > 0; k++ {
+			m := out[r.IntN(n0)]
+			j := firstNonCore(m)
+			if j <= 0 || j >= len(m)-2 || len(m) > 40 {
+				continue
+			}
+			tail := m[j:]
+			for x := 1; x < len(tail); x++ {
+				if strings.ContainsRune(".-_+~", rune(tail[x])) {
+					for _, sp := range []string{".", "-", "_"} {
+						if string(tail[x]) != sp {
+							v := m[:j] + tail[:x] + sp + tail[x+1:]
+							out = append(out, v, v+".1", v+"-1")
+						}
+					}
+				}
+			}
+			out = append(out, m+".1", m+"-1")
+		}
+	}
 	// maven: the unique snapshots of this base as a repository lists them, next to the literal -SNAPSHOT
 	if eco == "maven" && chance(r, 1, 5) {
 		out = append(out, base+"-SNAPSHOT", base+"-snapshot")
